@@ -310,6 +310,7 @@ class Gen:
         cols = [{"g": gam[j], "lo": lp["lo"][j], "up": lp["up"][j]} for j in range(lp["n"])]
         rows = [{"r": rho[i], "lhs": lp["lhs"][i], "rhs": lp["rhs"][i]} for i in range(lp["m"])]
         newg = lambda: r.randint(-span, span) if not wild else 0
+        flags = {"implicit": False}
 
         def sprow(i_r, extra):
             """entries of a new row with scale i_r over the current columns (+ maybe one implicit new column)"""
@@ -321,6 +322,7 @@ class Gen:
                 g = newg()
                 ent.append("%d:%s" % (len(cols), coef(r.randint(-span, span) if wild else i_r + g)))
                 cols.append({"g": g, "lo": "0:0", "up": INF_TOK})
+                flags["implicit"] = True
             return ",".join(ent) if ent else "-"
 
         def spcol(j_g, extra):
@@ -332,6 +334,7 @@ class Gen:
                 rr = newg()
                 ent.append("%d:%s" % (len(rows), coef(r.randint(-span, span) if wild else rr + j_g)))
                 rows.append({"r": rr, "lhs": "0:0", "rhs": INF_TOK})
+                flags["implicit"] = True
             return ",".join(ent) if ent else "-"
 
         ops = []
@@ -493,7 +496,7 @@ class Gen:
         if not solved or r.random() < 0.8:
             ops.append(["solve"])
         final = {"lo": [c_["lo"] for c_ in cols], "up": [c_["up"] for c_ in cols],
-                 "lhs": [r_["lhs"] for r_ in rows], "rhs": [r_["rhs"] for r_ in rows]}
+                 "lhs": [r_["lhs"] for r_ in rows], "rhs": [r_["rhs"] for r_ in rows], "implicit": flags["implicit"]}
         return ops, final
 
 
@@ -908,6 +911,10 @@ def main():
         if k < 3:
             ck.sample({"mode": c["mode"], "scaler": c["scaler"], "lp": lp_line(c["lp"])[:300], "ops": c.get("ops", [])[:6]})
 
+    if ck.tier == "thorough" and not ck.args.replay:
+        coq_sample(ck, cases, blocks)
+        asan_run(ck, cases, rundir)
+
     ck.cov["rule"] = ("bare: one (LP, scaler) pair per case, LP entries dyadic with small mantissas and exponents over 2^-40..2^40 in the families "
                       "row/column-structured, wild, tiny, huge, unit, with empty rows/columns, single row/column; exact comparison of the stored LP, its "
                       "un-scaling, all getters, the six solution unscale maps, the scale* functions and the change overloads with the extracted model "
@@ -928,6 +935,109 @@ def main():
                       "(s = A x and d = c - A^T y to 1e-6 relative to the terms; feasibility to 1e-5 (1 + |bound|))",
                       "row objectives (maxRowObj) are scaled in the bare mode only; SoPlexBase offers no user-level access to them"]
     ck.finish()
+
+
+def coq_term(t):
+    if t == "inf":
+        return "DPInf"
+    if t == "-inf":
+        return "DNInf"
+    if t == "nan":
+        return "DNaN"
+    m, e = t.split(":")
+    return "(DFin (%s) (%s))" % (m, e)
+
+
+def coq_lp(f):
+    m, n = int(f["m"]), int(f["n"])
+    a = [["(DFin 0 0)"] * n for _ in range(m)]
+    for i, j, v in ftrips(f, "A"):
+        a[i][j] = coq_term(v)
+    lst = lambda xs: "[" + "; ".join(xs) + "]"
+    return "(mkLP %s %s %s %s %s %s %s)" % (
+        lst([coq_term(t) for t in flist(f, "obj")]), lst([coq_term(t) for t in flist(f, "lo")]), lst([coq_term(t) for t in flist(f, "up")]),
+        lst([coq_term(t) for t in flist(f, "lhs")]), lst([coq_term(t) for t in flist(f, "rhs")]), lst([coq_term(t) for t in flist(f, "robj")]),
+        lst([lst(row) for row in a]))
+
+
+def coq_sample(ck, cases, blocks, nsample=30):
+    """re-evaluates a sample of bare cases inside Coq (vm_compute): the stored LP reported by the implementation is
+    d_apply_scaling of the original and d_unscale of it is the original - takes extraction and the OCaml driver out of the
+    trusted base for the sample"""
+    picks = [k for k, c in enumerate(cases) if c["mode"] == "BARE" and k in blocks][:nsample]
+    body = ["From Coq Require Import ZArith List.", "From SV Require Import Dbl ScalingModel.", "Import ListNotations.", "Local Open Scope Z_scope."]
+    n = 0
+    for k in picks:
+        d = {}
+        for l in blocks[k]:
+            if " " in l:
+                d.setdefault(l.split(" ", 1)[0], l.split(" ", 1)[1])
+        if not all(x in d for x in ("orig", "exps", "stored")):
+            continue
+        fo, fe, fs = parse_fields(d["orig"]), parse_fields(d["exps"]), parse_fields(d["stored"])
+        if any(len(x.split(":")[0]) > 17 for x in flist(fo, "obj")):
+            continue
+        R = "[" + "; ".join("(%s)" % x for x in flist(fe, "R")) + "]"
+        C = "[" + "; ".join("(%s)" % x for x in flist(fe, "C")) + "]"
+        body.append("Example sample_%d : d_apply_scaling %s %s %s = %s /\\ d_unscale %s %s %s = %s." % (k, R, C, coq_lp(fo), coq_lp(fs), R, C, coq_lp(fs), coq_lp(fo)))
+        body.append("Proof. vm_compute. split; reflexivity. Qed.")
+        n += 1
+    if not n:
+        return
+    d = os.path.join(vlib.BUILD, "run")
+    path = os.path.join(d, "C09_sample_%d.v" % os.getpid())
+    with open(path, "w") as f:
+        f.write("\n".join(body) + "\n")
+    rc, out, err = vlib.sh(["coqc", "-Q", vlib.COQ, "SV", "-w", "-all", path], timeout=900, cwd=d)
+    for ext in (".v", ".vo", ".vok", ".vos", ".glob"):
+        try:
+            os.remove(path[:-2] + ext)
+        except OSError:
+            pass
+    try:
+        os.remove(os.path.join(d, ".C09_sample_%d.aux" % os.getpid()))
+    except OSError:
+        pass
+    if rc != 0:
+        ck.violation("coq-sample", "re-evaluation of %d bare cases inside Coq (vm_compute) does not confirm the implementation's stored LPs: %s" % (n, (out + err)[-1200:]),
+                     {"kind": "coq-sample"}, no_input=True)
+    else:
+        ck.cov["coq_vm_compute_sample"] = "%d bare cases re-evaluated inside Coq (d_apply_scaling / d_unscale by vm_compute, reflexivity)" % n
+
+
+def asan_run(ck, cases, rundir, limit=200):
+    """histories that create columns / rows implicitly under persistent scaling (and the hand-made cases) under
+    AddressSanitizer + UBSan (clang)"""
+    import re
+    try:
+        exe = vlib.build_harness("C09", cxx="clang++", extra=["-fsanitize=address,undefined", "-g"], tag="lib-asan")
+    except (vlib.BuildError, OSError) as e:
+        ck.cov["asan"] = "sanitizer build not available: %s" % str(e)[-300:]
+        return
+    sel = [c for c in cases if c["mode"] == "USER" and (c.get("family", "").startswith("sys-") or (c.get("final") or {}).get("implicit"))][:limit]
+    if not sel:
+        return
+    path = os.path.join(rundir, "C09.%d.asan.cases" % os.getpid())
+    write_cases(path, sel)
+    env = dict(os.environ, C09_NOHANDLER="1", ASAN_OPTIONS="detect_leaks=0", UBSAN_OPTIONS="print_stacktrace=0")
+    blocks, crashes = run_harness(exe, path, len(sel), rundir, env=env, timeout=3000)
+    try:
+        os.remove(path)
+    except OSError:
+        pass
+    ck.cov["asan"] = "%d histories under ASan+UBSan, %d aborted by the sanitizer" % (len(sel), len(crashes))
+    for k, rc, err in crashes:
+        c = sel[k] if k < len(sel) else {}
+        m = re.search(r"ERROR: AddressSanitizer: (\S+)", err)
+        kind = m.group(1) if m else "rc=%d" % rc
+        frames = re.findall(r"#\d+ \S+ in (soplex::[A-Za-z0-9_]+(?:<[^>]*>)?::[A-Za-z0-9_~]+)", err)
+        names = [f.split("::")[-1] for f in frames]
+        if kind == "heap-buffer-overflow" and "computeScaleExp" in names[:2] and ("doAddRow" in names[:4] or "doAddCol" in names[:4]):
+            sig = "implicit-%s-scale-exp:asan" % ("col" if "doAddRow" in names[:4] else "row")
+        else:
+            sig = "asan:%s:%s" % (kind, names[0] if names else "?")
+        ck.violation(sig, "AddressSanitizer: %s in %s (history with scaler %s persistent=%s)" % (kind, " <- ".join(names[:4]), c.get("scaler"), c.get("persistent")),
+                     {"case": {kk: vv for kk, vv in c.items() if kk != "final"}, "stderr": err[:3000]})
 
 
 def cmp_fields(hf, mf, keys):
@@ -990,6 +1100,9 @@ def bare_case(ck, k, c, ls, mb, strip, replay_of, crash):
     # getters: correspondence with the model ...
     gk = ("slo", "sup", "slhs", "srhs", "sobj", "vlo", "vup", "vlhs", "vrhs", "vobj", "ucoef")
     diff = cmp_fields(fg, mg, gk)
+    # the model mirrors the vector getters as written (no test for infinity); an implementation that returns the original
+    # data instead satisfies the property and is accepted as well
+    diff = [x for x in diff if not (x in ("vlo", "vup", "vlhs", "vrhs") and flist(fg, x) == flist(fo, x[1:]))]
     if diff:
         ck.violation("bare-getters-model:" + ",".join(diff), "getters on the scaled LP differ from the model in %s\n impl : %s\n model: %s" % (diff, d["get"], mb["get"]),
                      dict(rp, implementation=d["get"], model=mb["get"]), no_input=True)
@@ -1024,6 +1137,11 @@ def bare_case(ck, k, c, ls, mb, strip, replay_of, crash):
         if d[name].strip() != mb[name].strip():
             hfm, mfm = parse_fields(d[name]), parse_fields(mb[name])
             diff = [x for x in hfm if hfm[x] != mfm.get(x)]
+            if name == "chg":
+                # as above: vector overloads that keep infinite entries (= what is stored already) are accepted
+                diff = [x for x in diff if hfm[x] != fs.get(x)]
+                if not diff:
+                    continue
             ck.violation("bare-%s:%s" % (name, ",".join(diff)), "%s differs from the model in %s (exponents %s)\n impl : %s\n model: %s" % (
                 {"sol": "solution unscale maps", "sc": "scale* of single data", "chg": "vector change overloads", "chg1": "single-index change overloads"}[name],
                 diff, d["exps"].split(" rsz")[0], d[name], mb[name]),
